@@ -493,7 +493,7 @@ def split_macro_args(text):
                 return None
             lit = text[i:k + len(q)]
             pre = "".join(cur)[-3:].lower()
-            if "f" in pre.lstrip("0123456789 ,([{=+-*/%<>!&|^~:;.") and any(ch in lit for ch in "()[]"):
+            if "f" in pre.lstrip("0123456789 ,([{=+-*/%<>!&|^~:;.") and any(ch in lit for ch in "()[]{}"):
                 st = []
                 for ch in lit:
                     if ch in "([{":
